@@ -17,6 +17,8 @@ import (
 	"golang.org/x/tools/go/packages"
 	"golang.org/x/tools/go/ssa"
 	"golang.org/x/tools/go/ssa/ssautil"
+
+	"hpfscheck/internal/fold"
 )
 
 // ModulePath is the import path prefix of the analysed module.
@@ -36,8 +38,19 @@ var (
 	Darwin  = Target{"darwin", "arm64"}
 )
 
+// InventoryFile is the committed list of the reference tree's function declarations (set by main from the -verif
+// directory). Unexported functions of the analysed tree that are not in it are folded back into their callers before
+// type-checking (package fold); an empty name or a missing file disables that.
+var InventoryFile string
+
 // Program is one loaded, type-checked, SSA-built view of the repository.
 type Program struct {
+	// Folded lists the new helpers that were folded into their callers, FoldKept those that were left alone (with the
+	// reason), FoldNote a failure of the folded sources to type-check (the tree was then analysed as it is).
+	Folded   []string
+	FoldKept []string
+	FoldNote string
+
 	Target  Target
 	Repo    string
 	ModPath string
@@ -85,19 +98,47 @@ func LoadModule(repo, modPath string, t Target) (*Program, error) {
 		Env:   env,
 		Tests: false,
 	}
+	var foldRes *fold.Result
+	foldNote := ""
+	if modPath == ModulePath && InventoryFile != "" {
+		if inv := fold.ReadInventory(InventoryFile); inv != nil {
+			r, ferr := fold.Overlay(repo, modPath, env, inv)
+			switch {
+			case ferr != nil:
+				foldNote = "folding new helpers failed, the tree is analysed as it is: " + ferr.Error()
+			case len(r.Overlay) > 0:
+				foldRes = r
+				cfg.Overlay = r.Overlay
+			default:
+				foldRes = r
+			}
+		}
+	}
+	collect := func(pkgs []*packages.Package) []string {
+		var errs []string
+		packages.Visit(pkgs, nil, func(p *packages.Package) {
+			for _, e := range p.Errors {
+				errs = append(errs, e.Error())
+			}
+		})
+		return errs
+	}
 	pkgs, err := packages.Load(cfg, "./...")
+	if err == nil && cfg.Overlay != nil && len(collect(pkgs)) > 0 {
+		// the folded sources do not type-check (a shape the folder does not handle): analyse the tree as it is
+		es := collect(pkgs)
+		foldNote = "the folded sources do not type-check (" + es[0] + "), the tree is analysed as it is"
+		foldRes.Folded = nil
+		cfg.Overlay = nil
+		pkgs, err = packages.Load(cfg, "./...")
+	}
 	if err != nil {
 		return nil, fmt.Errorf("load %s: %w", t, err)
 	}
 	if len(pkgs) == 0 {
 		return nil, fmt.Errorf("load %s: zero packages", t)
 	}
-	var errs []string
-	packages.Visit(pkgs, nil, func(p *packages.Package) {
-		for _, e := range p.Errors {
-			errs = append(errs, e.Error())
-		}
-	})
+	errs := collect(pkgs)
 	if len(errs) > 0 {
 		sort.Strings(errs)
 		if len(errs) > 10 {
@@ -106,6 +147,10 @@ func LoadModule(repo, modPath string, t Target) (*Program, error) {
 		return nil, fmt.Errorf("load %s: type/load errors:\n  %s", t, strings.Join(errs, "\n  "))
 	}
 	p := &Program{Target: t, Repo: repo, ModPath: modPath, ByPath: map[string]*packages.Package{}, SSAPkgs: map[string]*ssa.Package{}}
+	p.FoldNote = foldNote
+	if foldRes != nil {
+		p.Folded, p.FoldKept = foldRes.Folded, foldRes.Kept
+	}
 	sort.Slice(pkgs, func(i, j int) bool { return pkgs[i].PkgPath < pkgs[j].PkgPath })
 	for _, pk := range pkgs {
 		if pk.PkgPath == modPath || strings.HasPrefix(pk.PkgPath, modPath+"/") {
